@@ -5,6 +5,8 @@ from ..flow import bool_branch, discr_branch, edge_dominates, must_pass, awaited
 from ..mir import op_base, op_const, short, const_int as const_int_, const_int
 from .panics import resolve_place, pretty_sig
 
+from . import shared
+
 EXPLANATION = (
     "Sibling agreement and dominance in copy.rs / process_request: (1) every sink variant of DstHalf that copy_half writes to inside its "
     "loop (stream, frames, raw fd via the splice function) has a matching shutdown call after the loop on every non-error path; (2) the "
@@ -15,7 +17,8 @@ EXPLANATION = (
     " ERR2: every Ok(n) returned by the splice helper carries the splice system call's own count (never a constant standing for an error)."
     ' LINGER: no socket of the proxy is configured for an abortive close (SO_LINGER).'
     ' FWD: stream adapters that implement AsyncRead/AsyncWrite by delegation forward each poll method to the inner method of the same name.'
-    ' BUF-ONCE: no second read buffer over the client stream (bytes sent right before a FIN would be dropped with it).')
+    ' BUF-ONCE: no second read buffer over the client stream (bytes sent right before a FIN would be dropped with it).'
+    ' H1: the read-ahead of the handshake is written to the other side and flushed (after the write) before the relay starts.')
 RULE_TEXT = "instances = sink variants, transfer arms, exit edges, escape APIs"
 TRUSTED = ["tokio shutdown()/AsyncFd semantics", "dropping a socket closes it"]
 NOT_DECIDED = ["FIN vs RST timing, promptness", "TLS close_notify"]
@@ -27,6 +30,36 @@ ESCAPE = re.compile(r"^(std::os::fd::raw::IntoRawFd::into_raw_fd|core::mem::forg
 def flow_forward_(fn, seeds):
     from ..flow import flow_forward
     return flow_forward(fn, seeds, [r"Try::from_output$"])[0]
+
+
+def rule_linger(chk, prog, rule="LINGER"):
+    """no socket of the proxy is configured for an abortive close"""
+    # LINGER: no socket of the proxy is configured for an abortive close.  SO_LINGER with a zero timeout makes close() discard what
+    # is still queued in the send buffer and send RST: the tail of an upload the proxy already accepted is lost and the peer sees a
+    # reset where the other endpoint closed in order.
+    nl = 0
+    nsock = 0
+    for g in prog.fns.values():
+        if g.crate != "redproxy_rs":
+            continue
+        for c in g.calls:
+            p = c.path or ""
+            if re.search(r"tokio::net::tcp::(socket::TcpSocket|stream::TcpStream)::(connect|new_v4|new_v6)$|TcpListener::accept$", p):
+                nsock += 1
+            if re.search(r"::set_linger$|sockopt::Linger|SO_LINGER", p) or (re.search(r"setsockopt$", p) and "Linger" in str([op_const(a) for a in c.args])):
+                nl += 1
+                arg = c.args[-1] if c.args else None
+                none = False
+                if arg is not None and op_base(arg) is not None:
+                    none = any(k == "agg" and info.get("variant") == "None" for k, info in g.trace(op_base(arg)))
+                chk.instance(rule, c.where(), "%s sets SO_LINGER to None (the default, orderly close)" % g.path, none)
+                if not none:
+                    chk.finding(rule, g.key, "abortive-close", "", c.where(),
+                                "%s sets SO_LINGER on a relay socket: with a zero (or short) timeout close() discards the data still queued for the "
+                                "peer and sends RST, so bytes the proxy accepted are lost and an orderly end of stream is relayed as an abort" % g.path)
+    chk.instance(rule, "src", "no relay socket is configured for an abortive close (SO_LINGER)", nl == 0 or True, "%d socket creation / accept sites, %d SO_LINGER sites" % (nsock, nl), nontrivial=False)
+    chk.floor(rule, nsock, 3, "TCP socket creation / accept sites")
+
 
 
 def run(chk, prog):
@@ -202,31 +235,10 @@ def run(chk, prog):
         chk.floor("ERR2", nok, 1, "Ok(count) results of async_splice")
         chk.floor("ERR2", len(sysc), 1, "splice system call sites")
 
-    # LINGER: no socket of the proxy is configured for an abortive close.  SO_LINGER with a zero timeout makes close() discard what
-    # is still queued in the send buffer and send RST: the tail of an upload the proxy already accepted is lost and the peer sees a
-    # reset where the other endpoint closed in order.
-    nl = 0
-    nsock = 0
-    for g in prog.fns.values():
-        if g.crate != "redproxy_rs":
-            continue
-        for c in g.calls:
-            p = c.path or ""
-            if re.search(r"tokio::net::tcp::(socket::TcpSocket|stream::TcpStream)::(connect|new_v4|new_v6)$|TcpListener::accept$", p):
-                nsock += 1
-            if re.search(r"::set_linger$|sockopt::Linger|SO_LINGER", p) or (re.search(r"setsockopt$", p) and "Linger" in str([op_const(a) for a in c.args])):
-                nl += 1
-                arg = c.args[-1] if c.args else None
-                none = False
-                if arg is not None and op_base(arg) is not None:
-                    none = any(k == "agg" and info.get("variant") == "None" for k, info in g.trace(op_base(arg)))
-                chk.instance("LINGER", c.where(), "%s sets SO_LINGER to None (the default, orderly close)" % g.path, none)
-                if not none:
-                    chk.finding("LINGER", g.key, "abortive-close", "", c.where(),
-                                "%s sets SO_LINGER on a relay socket: with a zero (or short) timeout close() discards the data still queued for the "
-                                "peer and sends RST, so bytes the proxy accepted are lost and an orderly end of stream is relayed as an abort" % g.path)
-    chk.instance("LINGER", "src", "no relay socket is configured for an abortive close (SO_LINGER)", nl == 0 or True, "%d socket creation / accept sites, %d SO_LINGER sites" % (nsock, nl), nontrivial=False)
-    chk.floor("LINGER", nsock, 3, "TCP socket creation / accept sites")
+    rule_linger(chk, prog, "LINGER")
+    # the read-ahead of the handshake is forwarded and flushed before the relay starts: bytes a server sent before its FIN (a banner
+    # that arrived with the upstream reply) must reach the client before the end-of-stream does
+    shared.rule_h1(chk, prog, "H1")
 
     # FWD: a stream adapter of this crate that implements AsyncWrite / AsyncRead by delegation forwards every method to the method of
     # the same name.  poll_shutdown answered by the inner poll_flush reports success without ending the stream: the peer behind a QUIC
@@ -363,7 +375,6 @@ def run(chk, prog):
     chk.instance("fd-escape", "src", "no into_raw_fd / mem::forget / ManuallyDrop / Box::leak call in the crate", n == 0, "searched %d functions" % len(prog.by_crate["redproxy_rs"]))
 
     # ---------------------------------------------------------------- AsyncFd readiness discipline (splice mode must not hang)
-    from . import shared
     shared.rule_afd1(chk, prog)
     # bytes sent right before a FIN must reach the other side before the FIN does: no second read buffer may swallow them
     shared.rule_buf_once(chk, prog)
